@@ -44,14 +44,14 @@ theorem wf_dArr : WF HArr dArr := by
     rcases dArr_cases h with ⟨rfl, rfl⟩ | ⟨rfl, rfl⟩ | ⟨rfl, rfl⟩ | ⟨rfl, rfl⟩ <;>
       simp [eRoot, eArr, eX, eY] at hb
     rw [← hb.1]; simp
-  · intro p pe keys m k mm h hb hm
+  · intro p pe keys m k mm h _ hb hm
     rcases dArr_cases h with ⟨rfl, rfl⟩ | ⟨rfl, rfl⟩ | ⟨rfl, rfl⟩ | ⟨rfl, rfl⟩ <;>
       simp [eRoot, eArr, eX, eY] at hb
     obtain ⟨rfl, rfl⟩ := hb
     by_cases hk : k = "arr"
     · simp [hk] at hm; subst hm; subst hk; decide
     · simp [hk] at hm
-  · intro x xe nodes mv n c h hb hn hc
+  · intro x xe nodes mv n c h _ hb hn hc
     rcases dArr_cases h with ⟨rfl, rfl⟩ | ⟨rfl, rfl⟩ | ⟨rfl, rfl⟩ | ⟨rfl, rfl⟩ <;>
       simp [eRoot, eArr, eX, eY] at hb
     obtain ⟨rfl, rfl⟩ := hb
@@ -88,7 +88,7 @@ theorem fresh_hArr : Fresh hArr :=
 
 /-- the second element of the example array can be deleted and restored -/
 theorem arrDel_hArr : ArrDel hArr tA tY eArr eY [⟨tX, some tX⟩, ⟨tY, some tY⟩] (fun _ => none) := by
-  refine ⟨rfl, rfl, rfl, rfl, rfl, by decide, ?_, by decide, by decide, by decide⟩
+  refine ⟨rfl, rfl, rfl, rfl, rfl, rfl, by decide, ?_, by decide, by decide, by decide⟩
   intro a ha b hb hae hbe
   simp at ha hb
   rcases ha with rfl | rfl <;> rcases hb with rfl | rfl <;> first | rfl | (simp [tX, tY] at hae hbe)
